@@ -28,3 +28,6 @@ def run(ctx):
     D.r06_3_purity(ctx)
     S.r06_5_dumper_sinks(ctx)
     D.r05_2_dispatch(ctx, 'R06.6')
+    D.r06_7_alias_bookkeeping(ctx)
+    from . import roundtrip as R
+    R.r05_3_pairs(ctx, 'R06.8')
